@@ -46,6 +46,9 @@ type replGen struct {
 	methods0 []string // parameterless methods imported with using
 	pool     []int    // input kinds of the session's themes
 	closures []string // closures over top-level locals
+	typedefs []string // accepted typedefs (all include Int)
+	ghostTD  []string // typedefs only rejected inputs tried to define
+	ghostK   []string // constants only rejected inputs tried to define
 }
 
 func (g *replGen) fresh(prefix string) string {
@@ -84,16 +87,64 @@ var replThemes = map[string][]int{
 	"using":    {39, 39, 40, 41, 42, 43, 40, 42, 24, 28, 25},
 	"ghosts":   {23, 23, 24, 25, 26, 27, 28, 17},
 	"closures": {12, 13, 44, 44, 45, 45, 46, 46, 15, 16, 19, 20, 28},
+	"typedefs": {47, 47, 48, 48, 49, 49, 50, 50, 51, 10, 17, 18},
 }
 
 func (g *replGen) next() string {
 	pool := g.pool
 	if len(pool) == 0 {
-		for k := 0; k < 47; k++ {
+		for k := 0; k < 52; k++ {
 			pool = append(pool, k)
 		}
 	}
 	switch k := pool[g.r.Intn(len(pool))]; {
+	case k == 47:
+		// a top-level typedef (keeps the checker's scope copies alive across inputs)
+		td := g.fresh("Td")
+		g.typedefs = append(g.typedefs, td)
+		return fmt.Sprintf("typedef %s = Int | %s", td, Pick(g.r, []string{"Float", "String", "nil"}))
+	case k == 48:
+		// invalid: defines a typedef and a constant, then fails
+		td, kc := g.fresh("Tg"), g.fresh("KG")
+		g.ghostTD = append(g.ghostTD, td)
+		g.ghostK = append(g.ghostK, kc)
+		g.ghosts = append(g.ghosts, kc)
+		return Pick(g.r, []string{
+			fmt.Sprintf("typedef %s = Int | Float\nvar bad%d: Int = \"hot\"", td, g.n),
+			fmt.Sprintf("const %s = 5\n%s.no_such_method", kc, kc),
+			fmt.Sprintf("typedef %s = Int | Float\nconst %s: Int = 7\nundefined_function_%d(1)", td, kc, g.n),
+		})
+	case k == 49:
+		// a typedef whose body names a typedef: an accepted one, or one only a rejected input defined
+		td := g.fresh("Tr")
+		if len(g.ghostTD) > 0 && g.r.Chance(0.6) {
+			return fmt.Sprintf("typedef %s = %s | Int", td, Pick(g.r, g.ghostTD))
+		}
+		if len(g.typedefs) > 0 {
+			// (never its own name: a self-referential typedef is accepted and sends isSubtype into
+			// an endless recursion - a sequential front-end defect noted in DESIGN.md 7.3)
+			body := Pick(g.r, g.typedefs)
+			g.typedefs = append(g.typedefs, td)
+			return fmt.Sprintf("typedef %s = %s | Int", td, body)
+		}
+		return fmt.Sprintf("println \"T:%d:lit\"", g.n)
+	case k == 50:
+		// a typed constant whose initialiser names a constant only a rejected input defined,
+		// or the same name declared afresh (valid if nothing leaked)
+		if len(g.ghostK) > 0 {
+			kc := Pick(g.r, g.ghostK)
+			if g.r.Bool() {
+				return fmt.Sprintf("const %s: Int = %s * 2", g.fresh("KD"), kc)
+			}
+			return fmt.Sprintf("const %s: Int = %d", kc, g.r.Range(10, 99))
+		}
+		return fmt.Sprintf("println \"T:%d:lit\"", g.n)
+	case k == 51:
+		if len(g.typedefs) > 0 {
+			l := g.fresh("tv")
+			return fmt.Sprintf("var %s: %s = %d\nprintln \"T:%d:${%s}\"", l, Pick(g.r, g.typedefs), g.r.Range(1, 9), g.n, l)
+		}
+		return fmt.Sprintf("println \"T:%d:lit\"", g.n)
 	case k == 44:
 		// a closure that reads a top-level local of an earlier input
 		if len(g.locals) > 0 {
@@ -273,7 +324,7 @@ func (*c27Engine) Generate(seed uint64, tier string) *Case {
 	r := NewRand(seed)
 	g := &replGen{r: r}
 	if r.Chance(0.8) {
-		names := []string{"methods", "classes", "values", "ivars", "circular", "throwers", "using", "ghosts", "closures"}
+		names := []string{"methods", "classes", "values", "ivars", "circular", "throwers", "using", "ghosts", "closures", "typedefs", "typedefs"}
 		for i := 0; i < r.Range(1, 3); i++ {
 			g.pool = append(g.pool, replThemes[Pick(r, names)]...)
 		}
